@@ -291,6 +291,14 @@ def model_lines(case):
                     fl += ["AD", str(en[1]), str(en[2]), enc_str(en[3]), enc_str(en[4])]
             out.append(f"tr {enc_attrs(a)} {' '.join(fl)} {e}")
         return out
+    if k == "trs":
+        out = []
+        for snap in trs_snapshots(case):
+            sub = {"k": "tr", "t": snap, "attrs": case["attrs"]}
+            out += model_lines(sub)
+        return out
+    if k == "xterm":
+        return [f"c256 {r} {g} {b}" for (r, g, b) in (xterm_rgb(i) for i in case["idx"])]
     if k == "stream":
         return [f"stream {case['depth']} {len(case['attrs'])} " + " ".join(enc_attrs(a) for a in case["attrs"])]
     raise ValueError(k)
@@ -489,6 +497,113 @@ def canon_trhash(h) -> str:
             return f"c{1 if h[0] else 0}[{canon_trhash(h[1])}]"
         return "(" + ",".join(canon_trhash(x) for x in h) + ")"
     return repr(h)
+
+
+def snapshot_tr(t, flags, targets):
+    k = t[0]
+    if k == "CV":
+        return ["C", snapshot_tr(t[1], flags, targets), bool(flags.get(t[2], False))]
+    if k == "YV":
+        tgt = targets.get(t[1])
+        return ["N"] if tgt is None else ["Y", snapshot_tr(tgt, flags, targets)]
+    if k == "Y":
+        return ["Y", snapshot_tr(t[1], flags, targets)]
+    if k == "C":
+        return ["C", snapshot_tr(t[1], flags, targets), t[2]]
+    if k == "M":
+        return ["M", [snapshot_tr(x, flags, targets) for x in t[1]]]
+    return t
+
+
+def trs_states(case):
+    """(flags, targets) before the first step and after every step"""
+    flags = dict((int(k2), v) for k2, v in (case.get("flags0") or {}).items())
+    targets = dict((int(k2), v) for k2, v in (case.get("targets0") or {}).items())
+    out = [(dict(flags), dict(targets))]
+    for st in case["steps"]:
+        if st[0] == "flip":
+            flags[st[1]] = not flags.get(st[1], False)
+        else:
+            targets[st[1]] = st[2]
+        out.append((dict(flags), dict(targets)))
+    return out
+
+
+def trs_snapshots(case):
+    return [snapshot_tr(case["t"], f, tg) for f, tg in trs_states(case)]
+
+
+class TrState:
+    """ONE real transformation object whose Conditions / dynamic getters read mutable state"""
+
+    def __init__(self, case):
+        self.flags, self.targets = {}, {}
+        self.memo = {}
+        self.obj = self.build(case["t"])
+
+    def build(self, t):
+        from prompt_toolkit.filters import Condition
+        k = t[0]
+        if k == "CV":
+            slot = t[2]
+            return ConditionalStyleTransformation(self.build(t[1]), Condition(lambda: bool(self.flags.get(slot, False))))
+        if k == "YV":
+            slot = t[1]
+            return DynamicStyleTransformation(lambda: self.target(slot))
+        if k == "Y":
+            inner = self.build(t[1])
+            return DynamicStyleTransformation(lambda: inner)
+        if k == "C":
+            return ConditionalStyleTransformation(self.build(t[1]), t[2])
+        if k == "M":
+            return merge_style_transformations([self.build(x) for x in t[1]])
+        return build_tr(t)
+
+    def target(self, slot):
+        spec = self.targets.get(slot)
+        if spec is None:
+            return None
+        key = (slot, repr(spec))
+        if key not in self.memo:
+            self.memo[key] = self.build(spec)
+        return self.memo[key]
+
+
+def trs_run(case):
+    """per state of the ONE object: (raw hash, results per attrs)"""
+    ts = TrState(case)
+    out = []
+    for flags, targets in trs_states(case):
+        ts.flags, ts.targets = flags, targets
+        try:
+            h = ts.obj.invalidation_hash()
+        except Exception as e:  # noqa: BLE001
+            h = "err:" + type(e).__name__
+        res = []
+        for a in case["attrs"]:
+            try:
+                res.append(ts.obj.transform_attrs(Attrs(*a)))
+            except ValueError:
+                res.append("err:ValueError")
+            except AssertionError:
+                res.append("err:AssertionError")
+        out.append((h, res))
+    return out
+
+
+XTERM_LEVELS = (0x00, 0x5F, 0x87, 0xAF, 0xD7, 0xFF)
+
+
+def xterm_rgb(i):
+    """the xterm 256-colour palette, stated independently of the library: 16 + 36 r + 6 g + b is the colour
+    cube over the levels 00 5f 87 af d7 ff, 232 + k is the grey 8 + 10 k"""
+    if 16 <= i <= 231:
+        j = i - 16
+        return (XTERM_LEVELS[j // 36], XTERM_LEVELS[(j // 6) % 6], XTERM_LEVELS[j % 6])
+    if 232 <= i <= 255:
+        v = 8 + 10 * (i - 232)
+        return (v, v, v)
+    raise ValueError(i)
 
 
 _tr_memo = {}
@@ -793,6 +908,16 @@ def impl_lines(case):
     if k == "tr":
         tr = build_tr(case["t"], bool(case.get("callables")))
         return [canon_trhash(tr.invalidation_hash())] + [enc_res(r) for _, r in tr_run(case)]
+    if k == "trs":
+        out = []
+        for h, res in trs_run(case):
+            out.append(canon_trhash(h))
+            out += [enc_res(r) for r in res]
+        return out
+    if k == "xterm":
+        out = [str(real_c256(list(xterm_rgb(i)))) for i in case["idx"]]
+        vt100._256_colors.clear()
+        return out
     if k == "stream":
         return [enc_frags(list(ANSI(stream_text(case)).__pt_formatted_text__()))]
     raise ValueError(k)
@@ -1219,6 +1344,10 @@ def oracle(case):
         v = oracle_tr(case)
     elif k == "stream":
         v = oracle_stream(case)
+    elif k == "trs":
+        v = oracle_trs(case)
+    elif k == "xterm":
+        v = oracle_xterm(case)
     elif k == "ps":
         for t in case["texts"]:
             v += check_noinherit(t, "_parse_style_str")
@@ -1354,6 +1483,7 @@ def oracle_msess(case):
     dflt = mk_default(case)
     top = merge_styles([b.build(p) for p in case["top"]])
     cur = {}
+    seen_h = []
     for n, st in enumerate(case["steps"]):
         if st[0] == "set":
             b.cur[st[1]] = st[2]
@@ -1361,6 +1491,16 @@ def oracle_msess(case):
             continue
         r = q_or_err(top, st[1], dflt)
         want_rules = [r2 for p in case["top"] for r2 in spec_rules(snapshot(p, cur), case["sheets"])]
+        # two states of the merged style with different rules must not share their invalidation_hash()
+        h = top.invalidation_hash()
+        for h0, rules0, n0 in seen_h:
+            if h0 == h and rules0 != want_rules:
+                v.append({"signature": "BaseStyle.invalidation_hash | same hash, different rules",
+                          "msg": f"sheets={case['sheets']!r} top={case['top']!r}: after steps {case['steps'][:n0 + 1]!r} and "
+                                 f"after {case['steps'][:n + 1]!r} the hash is {h!r} both times, the rules are "
+                                 f"{rules0!r} / {want_rules!r}"})
+                break
+        seen_h.append((h, want_rules, n))
         one = style_or_none(want_rules)
         if one is None:
             continue
@@ -1466,6 +1606,53 @@ def oracle_tr(case):
                 if back != canon_attrs(r):
                     v.append({"signature": "_EscapeCodeCache | 24-bit escape does not decode to the same attributes",
                               "msg": f"transformed attrs={r} esc={e!r} decoded={back}"})
+    return v
+
+
+def oracle_trs(case):
+    """two states of ONE transformation object that transform some Attrs differently must not share their
+    invalidation_hash() (the renderer keys its attribute caches on it)"""
+    v = []
+    states = trs_run(case)
+    snaps = trs_snapshots(case)
+    for i in range(len(states)):
+        for j in range(i + 1, len(states)):
+            hi, ri = states[i]
+            hj, rj = states[j]
+            if ri != rj:
+                try:
+                    same = hi == hj
+                except Exception:  # noqa: BLE001
+                    same = False
+                if same:
+                    n = next(n for n in range(len(ri)) if ri[n] != rj[n])
+                    v.append({"signature": "StyleTransformation.invalidation_hash | same hash, different transformation",
+                              "msg": f"t={case['t']!r}: state {i} (= {snaps[i]!r}) and state {j} (= {snaps[j]!r}) after "
+                                     f"steps {case['steps'][:j]!r} have the same invalidation_hash {hi!r} but transform "
+                                     f"{case['attrs'][n]!r} to {ri[n]} / {rj[n]}"})
+                    return v
+    return v
+
+
+def oracle_xterm(case):
+    """the 256-colour table IS the xterm palette: encoder (8-bit depth) and decoder agree with the formula"""
+    v = []
+    enc = esc_cache(8)
+    for i in case["idx"]:
+        rgb = xterm_rgb(i)
+        if i < len(PALETTE) and tuple(PALETTE[i]) != rgb:
+            v.append({"signature": "_256ColorCache | table entry is not the xterm colour of its index",
+                      "msg": f"index {i}: table has {PALETTE[i]}, xterm defines {rgb}"})
+        hx = "%02x%02x%02x" % rgb
+        e = enc[Attrs(hx, "", False, False, False, False, False, False, False)]
+        if i < len(PALETTE) and e != f"\x1b[0;38;5;{i}m":
+            v.append({"signature": "_EscapeCodeCache depth 8 | exact xterm colour not sent as its xterm index",
+                      "msg": f"colour {hx} is xterm index {i}; escape code is {e!r}"})
+        if i < len(PALETTE):
+            fr = list(ANSI(f"\x1b[38;5;{i}mx").__pt_formatted_text__())
+            if fr != [("#" + hx, "x")]:
+                v.append({"signature": "ANSI decoder | 38;5;n is not decoded to the xterm colour n",
+                          "msg": f"'\\x1b[38;5;{i}mx' decodes to {fr!r}, xterm colour {i} is #{hx}"})
     return v
 
 
@@ -2032,6 +2219,41 @@ def _cases(tier, rng):
                 continue       # signed slices lead into colorsys with negative components (ZeroDivisionError)
             attrs.append(a)
         yield {"k": "tr", "t": rand_tr(3), "attrs": attrs, "callables": rng.random() < 0.3}
+    # --- ONE transformation object in several states: hash must follow the behaviour --------------
+    s_attrs = [["ansired", "", False, False, False, False, False, False, False],
+               ["", "ansiblue", False, False, False, False, False, True, False],
+               ["", "", False, False, False, False, False, None, False],
+               ["00ff00", "default", True, False, False, False, False, False, False]]
+    s_inner = [["R"], ["W"], ["SD", "ansired", "#abc"], ["AB", 300, 1000], ["M", [["R"], ["SD", "ansigreen", "ansiblue"]]]]
+    for inner in s_inner:
+        for t in (["CV", inner, 0], ["M", [["CV", inner, 0], ["D"]]], ["Y", ["CV", inner, 0]],
+                  ["CV", ["CV", inner, 1], 0], ["M", [["R"], ["CV", inner, 0], ["CV", ["W"], 1]]]):
+            yield {"k": "trs", "t": t, "attrs": s_attrs,
+                   "steps": [["flip", 0], ["flip", 1], ["flip", 0], ["flip", 1], ["flip", 0]]}
+    for i, a in enumerate(s_inner):
+        for b2 in s_inner:
+            t = ["M", [["YV", 0], ["CV", ["YV", 1], 0]]] if i % 2 else ["YV", 0]
+            yield {"k": "trs", "t": t, "attrs": s_attrs, "targets0": {"1": ["R"]},
+                   "steps": [["switch", 0, a], ["flip", 0], ["switch", 0, b2], ["switch", 1, a], ["switch", 0, None],
+                             ["switch", 0, ["CV", b2, 0]], ["flip", 0]]}
+    for _ in range(40 if quick else 1500):
+        def rt(depth):
+            r = rng.random()
+            if depth <= 0 or r < 0.4:
+                return rng.choice(s_inner + [["D"], ["N"], ["YV", rng.randrange(2)]])
+            if r < 0.7:
+                return ["CV", rt(depth - 1), rng.randrange(3)]
+            return ["M", [rt(depth - 1) for _ in range(rng.choice([1, 2, 3]))]]
+        steps = []
+        for _ in range(rng.choice([2, 4, 7])):
+            if rng.random() < 0.6:
+                steps.append(["flip", rng.randrange(3)])
+            else:
+                steps.append(["switch", rng.randrange(2), rng.choice(s_inner + [None, ["CV", ["R"], 2]])])
+        yield {"k": "trs", "t": rt(3), "attrs": s_attrs, "steps": steps}
+    # --- the 256-colour table against the xterm palette, index by index -----------------------
+    for ch in chunks([i for i in range(16, len(PALETTE)) if i != 232], 60):
+        yield {"k": "xterm", "idx": ch}
     # --- streams of escape sequences ---------------------------------------------------------
     strike_on = ["ff0000", "", False, False, True, False, False, False, False]
     plain = ["00ff00", "ansiblue", False, False, False, False, False, False, False]
@@ -2080,7 +2302,7 @@ def _cases(tier, rng):
 
 def sample_view(case):
     c = dict(case)
-    for key in ("strs", "texts", "rgbs", "items", "attrs", "gs", "ops", "objs", "steps"):
+    for key in ("strs", "texts", "rgbs", "items", "attrs", "gs", "ops", "objs", "steps", "idx"):
         if key in c and len(c[key]) > 4:
             c[key] = list(c[key][:4]) + [f"... {len(case[key])} in total"]
     return c
